@@ -322,12 +322,20 @@ func systematicC11() []*c11Scenario {
 }
 
 type c11Runner struct {
-	f   *common.Flags
-	res *common.Result
-	m   *mdl
-	w   *worker
-	dir string
-	c12 *c12Runner
+	f      *common.Flags
+	res    *common.Result
+	m      *mdl
+	w      *worker
+	dir    string
+	c12    *c12Runner
+	prefix string // key prefix of the findings ("c11" unless another property's run borrows the machinery)
+}
+
+func (rn *c11Runner) keyPrefix() string {
+	if rn.prefix != "" {
+		return rn.prefix
+	}
+	return "c11"
 }
 
 // runScenario replays sc on the real code and on the model; it returns a correspondence
@@ -351,6 +359,9 @@ func (rn *c11Runner) runScenario(sc *c11Scenario) (corr, impl, oname string, tag
 	}
 	for _, o := range resp.Log {
 		rn.c12.touched[o.Path] = true
+	}
+	if resp.FdLeak != "" {
+		impl, oname = "after all clients of the schedule had returned the process held descriptors it did not hold before: "+resp.FdLeak, "fd-baseline"
 	}
 	// ---- direct oracles on the real results
 	stored := map[int]map[string]bool{} // id -> showBytes of every content some Put (or the initial store) holds for it
@@ -696,10 +707,10 @@ func (rn *c11Runner) one(sc *c11Scenario, src string) {
 	}
 	in := map[string]string{"scenario": sc.String()}
 	if impl != "" {
-		res.Violate(common.Violation{Kind: "impl-violation", Oracle: oname, Input: in, Detail: impl, Key: "c11:" + oname + ":" + sc.String()})
+		res.Violate(common.Violation{Kind: "impl-violation", Oracle: oname, Input: in, Detail: impl, Key: rn.keyPrefix() + ":" + oname + ":" + sc.String()})
 	}
 	if corr != "" {
-		res.Violate(common.Violation{Kind: "correspondence", Oracle: "schedule-replay", Input: in, Detail: corr, Key: "c11:corr:" + sc.String()})
+		res.Violate(common.Violation{Kind: "correspondence", Oracle: "schedule-replay", Input: in, Detail: corr, Key: rn.keyPrefix() + ":corr:" + sc.String()})
 	}
 }
 
@@ -858,7 +869,9 @@ func runC11(f *common.Flags, res *common.Result, m *mdl) {
 				res.Notes = append(res.Notes, fmt.Sprintf("hypotheses checked on the SHA-256 values of the contents of the schedule replay (with the empty content): H_inj_on=%v no_hybrid=%v", inj, nh))
 				if f.Replay != "" {
 					if rp, err := common.LoadReplay(f.Replay); err == nil {
-						if sc := parseC11(rp.Violation.Input["scenario"]); sc != nil {
+						if rp.Violation.Input["repeat"] != "" {
+							replayC12History(f, res, shim, real, rp.Violation.Input)
+						} else if sc := parseC11(rp.Violation.Input["scenario"]); sc != nil {
 							rn.one(sc, "replay")
 						}
 					}
@@ -889,8 +902,17 @@ func runC11(f *common.Flags, res *common.Result, m *mdl) {
 	} else {
 		res.Notes = append(res.Notes, "schedule replay skipped (no os-shimmed build); only the uncontrolled stress runs")
 	}
+	repeats := ""
+	if f.Replay == "" {
+		// descriptors are shared by all users of the process: re-stores must not use them up
+		if shim != "" {
+			repeats = runRepeats(f, res, shim, true)
+		} else if real != "" {
+			repeats = runRepeats(f, res, real, false)
+		}
+	}
 	if real != "" && f.Replay == "" {
 		rn.stress(real, procs, routines, millis)
 	}
-	res.Rule = fmt.Sprintf("(i) a systematic family (two clients on one id: every pair of a Put with a lookup or another Put, the id stored beforehand / its output stored for another id / nothing stored; one client runs to completion at each of the first 19 operation boundaries of the other, both ways), then %d scenarios of 2-4 clients x 1-3 calls (Put/Get/GetBytes/GetFile over 1-3 ids, per id one content (re-stores) or several, some ids stored beforehand) with a schedule drawn from the seed, replayed on the real code under the os shim's cooperative scheduler (one file operation per turn) and on the interleaved semantics of the model: the sequence of (client, operation), every call's result and every file's final content are compared; direct oracles: returned bytes were stored for that id by some Put, no miss for ids only re-stored identically, every stored id readable at the end, no failing Put, no panic; (ii) %d processes x %d goroutines for %d ms on one directory with self-describing payloads and the same oracles; a scenario is non-trivial when it contains at least two Puts", nSched, procs, routines, millis)
+	res.Rule = fmt.Sprintf("(i) a systematic family (two clients on one id: every pair of a Put with a lookup or another Put, the id stored beforehand / its output stored for another id / nothing stored; one client runs to completion at each of the first 19 operation boundaries of the other, both ways), then %d scenarios of 2-4 clients x 1-3 calls (Put/Get/GetBytes/GetFile over 1-3 ids, per id one content (re-stores) or several, some ids stored beforehand) with a schedule drawn from the seed, replayed on the real code under the os shim's cooperative scheduler (one file operation per turn) and on the interleaved semantics of the model: the sequence of (client, operation), every call's result and every file's final content are compared; direct oracles: returned bytes were stored for that id by some Put, no miss for ids only re-stored identically, every stored id readable at the end, no failing Put, no panic; (ii) %d processes x %d goroutines for %d ms on one directory with self-describing payloads and the same oracles; a scenario is non-trivial when it contains at least two Puts; every replayed schedule must leave the process with the descriptors it had; (iii) %s", nSched, procs, routines, millis, repeats)
 }
